@@ -72,8 +72,13 @@ def run(ctx) -> None:
                   f"the newline is added when {r.to_dnf()}: for an existing file whose last line has no trailing newline the `[bumpver]` header is glued onto that line "
                   f"and the file can no longer be parsed", loc=wc.loc(pre[0].ast), witness={"setup.cfg (no final newline)": "[metadata]\nname = x"})
     else:
-        ctx.require(len(pre) >= 1 or len(ex_atoms) == 0, "write_content: newline prefix shape not enumerated")
-        if not pre:
+        # conditional-expression form: `"\n" if <file exists> else ""` (+ content)
+        ife = [n for n in ast.walk(wc.node) if isinstance(n, ast.IfExp) and unparse(n.test).replace("is_file", "exists").endswith("config_filepath.exists()")
+               and isinstance(n.body, ast.Constant) and isinstance(n.body.value, str) and n.body.value.startswith("\n")]
+        has_nl = any(isinstance(c, ast.Constant) and isinstance(c.value, str) and c.value.startswith("\n") for c in ast.walk(wc.node))
+        if ife:
+            ctx.ok("R1", "write_content: a newline precedes the section exactly when the file already exists (conditional expression)")
+        elif not has_nl:
             ctx.bad("R1", "config.write_content: no newline is put in front of a section appended to an existing file", "the `[bumpver]` header is glued onto the file's last line when that lacks a newline",
                     loc=wc.loc(), what="write_content: a newline precedes the section when the file exists")
         else:
